@@ -76,20 +76,33 @@ def cfgOf (c : Json) : Cfg :=
   let j := fldD c "cfg" (Json.mkObj [])
   { accepted := natD j "accepted" 0, argument := natD j "argument" 0, authn := natD j "authn" 0,
     authz := natD j "authz" 0, comm := natD j "comm" 0, internal := natD j "internal" 0,
-    noRule := natD j "norule" 0 }
+    noRule := natD j "norule" 0, verbose := boolD j "verbose" false }
+
+/-- content negotiation of `formatter.go` for the `Accept` values the generator uses: absent header, wildcards and
+the four supported media types are acceptable; other types and malformed values are not -/
+def negotiableAccept (c : Json) : E Bool := do
+  if isNull c "accept" then return true
+  match ← str c "accept" with
+  | "*/*" | "application/json" | "text/plain" | "text/html" | "application/xml"
+  | "text/plain;q=0.5, image/png" => pure true
+  | "image/png" | "application/pdf, image/*" | "foobar" | "application/json;q=foo" => pure false
+  | a => throw s!"accept value {a} not in the negotiation table"
 
 def traceJson (c : Ctx) : Json := jstrs c.trace
 
 /-- the same shape the Go harness prints -/
-def respJson (ep : EntryPoint) (r : Response) (c : Ctx) : Json :=
-  match ep, r with
+def respJson (ep : EntryPoint) (rp : Reply) (c : Ctx) : Json :=
+  match ep, rp.resp with
   | .proxy, .http s f =>
     Json.mkObj [("status", jnat s), ("hits", jnat (if f then 1 else 0)), ("relayed", Json.bool f),
+                ("errbody", Json.bool rp.errorBody), ("trace", traceJson c)]
+  | _, .http s _ => Json.mkObj [("status", jnat s), ("errbody", Json.bool rp.errorBody), ("trace", traceJson c)]
+  | _, .checkOk =>
+    Json.mkObj [("code", jnat 0), ("http", jnat 0), ("ok", Json.bool true), ("body", Json.bool false),
                 ("trace", traceJson c)]
-  | _, .http s _ => Json.mkObj [("status", jnat s), ("trace", traceJson c)]
-  | _, .checkOk => Json.mkObj [("code", jnat 0), ("http", jnat 0), ("ok", Json.bool true), ("trace", traceJson c)]
   | _, .checkDenied code st =>
-    Json.mkObj [("code", jnat code), ("http", jnat st), ("ok", Json.bool false), ("trace", traceJson c)]
+    Json.mkObj [("code", jnat code), ("http", jnat st), ("ok", Json.bool false), ("body", Json.bool rp.errorBody),
+                ("trace", traceJson c)]
   | _, .rpcError code => Json.mkObj [("rpcerr", jnat code), ("trace", traceJson c)]
 
 def rejected : Json := Json.mkObj [("load", jstr "rejected")]
@@ -119,6 +132,7 @@ def run (c : Json) : E Json := do
   let hit := boolD c "hit" true
   let up := natD c "upstream" 200
   let up := if up = 0 then 200 else up
+  let view : ReqView := { negotiable := ← negotiableAccept c }
   let mut res : List (String × Json) := []
   let mut spec : List (String × Json) := []
   let mut stats : List (String × Json) := []
@@ -129,8 +143,9 @@ def run (c : Json) : E Json := do
       stats := stats ++ [(epName ep, jstr "rejected")]
     | some repo =>
       let found := repo.find hit
-      let (r, ctx) := serve ep cfg up found
-      res := res ++ [(epName ep, respJson ep r ctx)]
+      let (rp, ctx) := serve ep cfg view up found
+      let r := rp.resp
+      res := res ++ [(epName ep, respJson ep rp ctx)]
       spec := spec ++ [(epName ep, Json.mkObj [
         ("expected_positive", Json.bool (expectedPositive ep found)),
         ("model_positive", Json.bool r.positive),
